@@ -32,6 +32,8 @@ type propInfo struct {
 // filled from the worker at run time (loadInfo).
 var props = map[string]*propInfo{
 	"C01": {},
+	"C02": {},
+	"C03": {},
 	"C07": {},
 }
 
